@@ -68,6 +68,15 @@ def execCall (st : DState) (args : List String) : DState × List String :=
       match V5.decodeMessageVersion d with
       | .ok p => (st, ["res ok", "v5 " ++ p.toD.render])
       | .error e => (st, [resLine e])
+  | ["v5r", hex] =>
+    -- decoding into a packet value that is kept across calls: the result does not depend on what it held
+    -- (Proofs/C05Trans.lean decodeMessageVersion_trans_eq is stated for every previous content)
+    match parseHex hex with
+    | none => (st, ["bad-op"])
+    | some d =>
+      match V5.decodeMessageVersion d with
+      | .ok p => (st, ["res ok", "v5 " ++ p.toD.render])
+      | .error e => (st, [resLine e])
   | ["rawv5", hex] =>
     match parseHex hex with
     | none => (st, ["bad-op"])
